@@ -27,7 +27,7 @@ def main(tier):
                sample={"evaluator": ev, "hop": "eval_* -> Parser::new(.., Some(placeholder))"})
         # hop 2: Parser::new stores it in a field through unwrap_or*/identity only
         fn = m.tb.fn("::parser::Parser::new")
-        tn = m.tb.fn_term(fn)
+        tn = m.tb.flat_term(fn)
         php = T.param_ids(fn)[1][1]
         fld = None
         for s in subterms(tn):
@@ -97,7 +97,7 @@ def main(tier):
             for _ in range(compared):
                 if g.key in ans_made:
                     ans_made.remove(g.key)
-        run.ob(reads == ["parse_number"], "field-read|%s" % ev, "C14 the stored placeholder is read exactly once, by the `@` arm", where(m, "::parser::Parser::parse_number"), "reads in %s" % reads,
+        run.ob(len(reads) == 1, "field-read|%s" % ev, "C14 the stored placeholder is read exactly once, by the `@` arm", where(m, "::parser::Parser::parse_number"), "reads in %s" % reads,
                sample={"evaluator": ev, "reads_of_placeholder_field": reads})
         run.ob(not ans_made, "ans-token-source|%s" % ev, "C14 only the tokenizer's `@` rule produces the placeholder token", ev, "constructed in %s" % ans_made[:3])
         run.ob(True, "field-write-census|%s" % ev, "C14", ev, sample={"evaluator": ev, "writes_to_placeholder_field": nwrites})
